@@ -50,9 +50,47 @@ def setup(ctx):
     MPI, mpi, kcenters, kmedoids, hybrid, util = _MPI, _mpi, _kc, _km, _hy, _u
     ops, mio, ra, R = _ops, _io, _ra, _ra.RaggedArray
     assert _mpi.mpi4py_installed and _mpi.comm is _MPI.COMM_WORLD
+    _serialise_pytables()
     ctx.tmp = tempfile.mkdtemp(prefix='vf-c14-',
                                dir=os.environ.get('VF_RUNDIR'))
     ctx.tiers = ctx.spec.get('tier')
+
+
+def _serialise_pytables():
+    """Ranks are threads of one process here but processes under real MPI.
+    PyTables keeps a process-wide registry of open files and is not
+    thread-safe (open_file walks the registry while another thread's File is
+    half constructed / half closed), so one file handle at a time: the lock
+    is taken in open_file and released in File.close.  No collective is
+    executed while enspara holds a file open, so this cannot deadlock."""
+    import threading
+    import tables
+    if getattr(tables, '_vf_serialised', False):
+        return
+    lock = threading.RLock()
+    orig_open, orig_close = tables.open_file, tables.File.close
+
+    def open_file(*a, **k):
+        lock.acquire()
+        try:
+            h = orig_open(*a, **k)
+        except BaseException:
+            lock.release()
+            raise
+        h._vf_locked = True
+        return h
+
+    def close(self):
+        held = self.__dict__.get('_vf_locked', False)
+        try:
+            return orig_close(self)
+        finally:
+            if held:
+                self.__dict__.pop('_vf_locked', None)
+                lock.release()
+    tables.open_file = open_file
+    tables.File.close = close
+    tables._vf_serialised = True
 
 
 def teardown(ctx):
